@@ -19,6 +19,7 @@ from lib.filespec import PLACEHOLDER, size_of, expand, same_bytes
 from lib.gallina import gZ, gbool, gstr, gbytes, glist, gopt, gQ
 
 ID = "C20"
+LOG_LEVEL_INVARIANT = True      # (harness/vp.py: a sample of the cases again with logging at DEBUG; same observables)
 RUN_MODULE = "RunC20"
 DRIVER = "files_driver.py"
 SHARD = 120
